@@ -217,7 +217,7 @@ func swarmAppsafe(t *Tape) FleetCfg {
 	c.N = 2 + t.Weighted("cfg-n2", []int{4, 1})
 	c.AppRate = pick(t, "cfg-apprate2", 250, 120, 400)
 	c.AppTxns = 6 + t.Choose("cfg-apptxns2", 30)
-	c.PreferPoints = []string{"loadonce:after-txn", "sendonce:after-txn", "sync:before-change-check",
+	c.PreferPoints = []string{"lmdb:end-write", "lmdb:begin-write", "loadonce:after-txn", "sendonce:after-txn", "sync:before-change-check",
 		"sync:before-send", "sync:after-load", "sync:before-load", "sendonce:in-view", "sync:loop-top"}
 	c.PreferBias = pick(t, "cfg-prefer", 700, 300, 950)
 	if t.Choose("cfg-focus", 2) == 1 {
@@ -284,7 +284,7 @@ func init() {
 			}
 			c.AppRate = pick(t, "cfg-apprate3", 300, 150, 500)
 			c.AppTxns = 8 + t.Choose("cfg-apptxns3", 40)
-			c.PreferPoints = []string{"sendonce:in-view", "sync:before-send", "sendonce:after-txn", "bucket:store"}
+			c.PreferPoints = []string{"sendonce:in-view", "sync:before-send", "sendonce:after-txn", "bucket:store", "lmdb:end-read", "lmdb:begin-read", "lmdb:end-write"}
 			c.PreferBias = pick(t, "cfg-prefer3", 600, 200, 900)
 			c.CrashRate = pick(t, "cfg-crash3", 0, 0, 10)
 			c.Padding = t.Choose("cfg-padding", 4) == 3
